@@ -18,7 +18,7 @@ DRIVERS = ["drv_reg"]
 DRIVER_EXE = "drv_reg"
 RULE = ("interleavings of registrations (accepted and rejected), read-only operations (CheckCategoryUnit, Scalar "
         "creation with unit+category / unit only / category only, Convert, IsValid, object-level GetValidUnits, +, "
-        "+/- on derived operands (asked repeatedly), products/quotients and ObtainQuantity(OrderedDict)/CreateDerived in both composition orders, the registry getters) and failing lookups on a private UnitDatabase(): bounded-exhaustive over a 27-operation "
+        "+/- on derived operands (asked repeatedly), products/quotients and ObtainQuantity(OrderedDict)/CreateDerived in both composition orders, the registry getters) and failing lookups on a private UnitDatabase(): bounded-exhaustive over a 30-operation "
         "alphabet after a 2-, 4- or 5-call prefix to depth 3 (quick) / 4 (thorough), random interleavings of <= 30 steps over "
         "the name pools of C14; every step's outcome and registry-changed flag and the final memo tables are "
         "compared; distinct = distinct history; non-trivial = a query follows a registration that follows a query")
@@ -58,8 +58,40 @@ ALPHABET = [
     # units (the matching rewrites units on copies of the composing maps; asked repeatedly inside one history)
     dict(q="sumd", f="add", ents=[["length", "m", 1], ["depth", "cm", 1]], ents2=[["length", "m", 1], ["depth", "m", 1]], x=1.0, y=2.0),
     dict(q="sumd", f="sub", ents=[["length", "m", 1], ["depth", "cm", 1]], ents2=[["length", "m", 1], ["depth", "m", 1]], x=5.0, y=1.0),
+    # the "all of them" forms (they read every quantity type's list), then a question about one quantity type
+    dict(q="allUnits"),
+    dict(q="allUnitNames"),
+    dict(q="units", qt="length"),
 ]
 N_CORE = 25   # the operations used at the deepest level of the thorough tier (the rest need the longer prefixes)
+
+
+LABEL = "bbl-ish"   # a free-text label of an 'Unknown' quantity, never registered as a unit
+PREFIX_U = [reg._base("length", "m"), reg._base("Unknown", "<unknown>"), reg._cat("Unknown", "Unknown")]
+ALPHABET_U = [
+    dict(q="convert", cq="Unknown", u="<unknown>", v=LABEL, x=3.5),
+    dict(q="getValue", c="Unknown", u="<unknown>", v=LABEL, x=3.5),
+    dict(q="info", qt="Unknown", u=LABEL, fu=True),
+    dict(q="info", qt="Unknown", u=LABEL, fu=False),
+    dict(q="quantityType", u=LABEL),
+    dict(q="defaultCategory", u=LABEL),
+    dict(q="check", c="Unknown", u=LABEL),
+    dict(q="checkQtUnit", qt="Unknown", u=LABEL),
+    dict(q="createU", u=LABEL),
+    dict(q="create", c="Unknown", u=LABEL),
+    dict(q="unitName", qt="Unknown", u=LABEL),
+    dict(q="allUnits"),
+    dict(q="quantityTypes"),
+    dict(q="categories"),
+    reg._unit("length", LABEL),
+    reg._unit("Unknown", "cm"),
+]
+
+
+def _exhaustive_u(depth):
+    for d in range(1, depth + 1):
+        for idx in itertools.product(range(len(ALPHABET_U)), repeat=d):
+            yield _history(PREFIX_U + [ALPHABET_U[i] for i in idx], "exhaustive-unknown")
 
 
 def _history(ops, tag="h"):
@@ -109,7 +141,7 @@ def _swapped(op):
 
 def _rnd_query(rng, units=(), cats=(), extra=False):
     types = reg.TYPES + ["Unknown"]
-    syms = reg.SYMS + ["Mcf", "1000ft3", "<unknown>", "degC", "km"]
+    syms = reg.SYMS + ["Mcf", "1000ft3", "<unknown>", "degC", "km", LABEL]
     allcats = reg.CATS + ["Unknown", "nope"]
 
     def cat():
@@ -123,8 +155,18 @@ def _rnd_query(rng, units=(), cats=(), extra=False):
         u = "lbmole"
     if extra and rng.random() < 0.3:
         # asked on the real code only (failing-input search)
-        return rng.choice([dict(q="isValidU", u=u, x=rng.choice([0.0, 3.0, 700.0, -2.0])), dict(q="infoU", u=u),
-                           dict(q="quantityTypes"), dict(q="checkQuantityType", qt=rng.choice(types))])
+        return rng.choice([dict(q="isValidU", u=u, x=rng.choice([0.0, 3.0, 700.0, -2.0])), dict(q="infoU", u=u)])
+    if rng.random() < 0.25:
+        qt = rng.choice(types)
+        return rng.choice([
+            dict(q="allUnits"), dict(q="allUnits"), dict(q="allUnitNames"), dict(q="unitNames", qt=qt),
+            dict(q="quantityTypes"), dict(q="checkQuantityType", qt=qt), dict(q="categories"),
+            dict(q="isValidCategory", c=c), dict(q="unitName", qt=rng.choice([qt, c]), u=u),
+            dict(q="checkQtUnit", qt=rng.choice([qt, c]), u=u), dict(q="info", qt=rng.choice([qt, c]), u=u, fu=rng.random() < 0.6),
+            dict(q="getValue", c=c, u=u, v=v, x=rng.choice([1.0, -3.5, 120.0])),
+            dict(q="getValue", c="Unknown", u="<unknown>", v=rng.choice([LABEL, v]), x=3.5),
+            dict(q="convert", cq="Unknown", u="<unknown>", v=rng.choice([LABEL, v]), x=3.5),
+        ])
     return rng.choice([
         dict(q="check", c=c, u=u), dict(q="check", c=c, u=u),
         dict(q="create", c=c, u=u), dict(q="create", c=c, u=u),
@@ -176,6 +218,7 @@ def _exhaustive(depth, prefixes=(PREFIX, PREFIX2), n=None):
 
 
 def cases(ctx):
+    yield from _exhaustive_u(3)
     if ctx.tier == "quick":
         yield from _exhaustive(2, (PREFIX3,))
         yield from _exhaustive(3)
@@ -341,7 +384,7 @@ def oracle(c, ctx):
     return _check(c["_t"]["ops"])
 
 
-ORACLE_ONLY = ("isValidU", "infoU", "quantityTypes", "checkQuantityType")
+ORACLE_ONLY = ("isValidU", "infoU")
 
 
 def _directed():
@@ -373,6 +416,7 @@ def _directed():
 
 def search(ctx):
     yield from _directed()
+    yield from _exhaustive_u(3)
     yield from _exhaustive(3)
     yield from _random(ctx, "s", 1500 if ctx.tier == "quick" else 15000, 25, extra=True)
 
